@@ -202,7 +202,7 @@ class BlockDiagLinearOperator(BlockLinearOperator, metaclass=_MetaBlockDiagLinea
         if isinstance(other, BlockDiagLinearOperator) and self.base_linear_op.shape == other.base_linear_op.shape:
             return BlockDiagLinearOperator(self.base_linear_op @ other.base_linear_op)
         # special case if we have a DiagLinearOperator
-        if isinstance(other, DiagLinearOperator):
+        if isinstance(other, DiagLinearOperator) and self.shape == other.shape:
             # matmul is going to be cheap because of the special casing in DiagLinearOperator
             diag_reshape = other._diag.view(*self.base_linear_op.shape[:-1])
             diag = DiagLinearOperator(diag_reshape)
